@@ -129,6 +129,28 @@ pub fn on_dial_created(w: &mut World, did: usize) {
             }
         }
     }
+    // R7: with continue_after_preemption the attempt of a cancelled owner goes on in the background, so the requests
+    // that waited for it keep waiting for it; one of them dialing means the cancel cost an additional dial
+    if w.cfg.continue_after_preemption {
+        if let Some(o) = w.reqs[rid].waits_on {
+            let owner = &w.reqs[o];
+            if owner.state == ReqState::Cancelled {
+                if let Some(od) = owner.dial {
+                    let d = &w.dials[od];
+                    let failed = d.res == Res3::Err || d.hs.map(|h| w.hss[h].res == Res3::Err).unwrap_or(false);
+                    let produced = w.conns.iter().any(|c| c.dial == od);
+                    let cut = (d.dropped_step.is_some() && !d.completed) || d.hs.map(|h| w.hss[h].dropped_step.is_some() && !w.hss[h].completed).unwrap_or(false);
+                    if !failed && !produced && cut {
+                        w.violate(
+                            "C04",
+                            "R7:cancelled-owner-attempt-dropped-and-waiter-dials",
+                            format!("r{rid} waited for r{o}'s attempt d{od}; r{o} was cancelled after the attempt had started, the attempt was dropped instead of continuing in the background (continue_after_preemption=true) and r{rid} now starts dial d{did}: the cancel caused an additional dial"),
+                        );
+                    }
+                }
+            }
+        }
+    }
     if w.reqs[rid].h2 {
         // R2: another HTTP/2 connection attempt to this origin is in flight (dial or handshake outstanding,
         // whether its request still waits or the attempt continues in the background)
@@ -578,7 +600,8 @@ pub fn post_step(w: &mut World, snapshot: &[hyperdriver::verif_hooks::PoolEntry]
         }
     }
     // boundary observation (no hook): connections nobody holds and nobody waits for are retained by the pool
-    let origins: Vec<String> = if w.ambiguous_spelling { vec![] } else { w.cfg.origins.iter().map(|o| origin_of(&o.uri.parse().unwrap())).collect() };
+    // (worlds with hundreds of origins exist for the key table only: the per-origin boundary count is skipped there)
+    let origins: Vec<String> = if w.ambiguous_spelling || w.cfg.origins.len() > 100 { vec![] } else { w.cfg.origins.iter().map(|o| origin_of(&o.uri.parse().unwrap())).collect() };
     for o in origins {
         if waiting_reqs(w, &o).next().is_some() {
             continue;
